@@ -1,6 +1,928 @@
-//! C14 — not built yet.
+//! C14 — namespace caches are invisible: answers ignore query history and thread schedule.
+//!
+//! Case inputs (`<graph>` = `g <rows as in C13>` or `z` = tests/defs/defs.zinc; query = `sup k` | `asup k` |
+//! `inh k` | `fits a b` | `refl <rec>` | `rfits <rec> base` | `rel <rec> relName <term|->` | `tags parent`):
+//!   `seq   <graph> <nq> {query}*`
+//!        sequential history: all queries in order against ONE cold namespace vs. each query alone against its
+//!        own cold namespace - the answers must be identical.
+//!   `conc  <graph> <perturbSeed> <nthreads> {<nq> {query}*}* <nsched> {tid}*`
+//!        real threads, released together, issue their queries against ONE cold namespace (the hook points
+//!        randomly yield / sleep); every answer must equal the answer of a single-threaded cold namespace; a
+//!        panic in a thread is caught and reported; a deadlock trips the case watchdog (kind `hang`).
+//!   `trace <graph> <budget> <nthreads> {<nq> {query}*}*`
+//!        forced interleavings: a controller lets exactly one thread at a time run from one hook point
+//!        (`<cache>.miss`, `<cache>.absent`, `<cache>.inserted`, installed with `--cfg libhaystack_verif`) to the
+//!        next, and enumerates ALL such interleavings depth-first (up to <budget> schedules).  Each schedule is
+//!        a model trace: the Lean model, driven by the same schedule, must predict the same sequence of hook
+//!        events (which thread misses, finds the key absent, inserts - with which key), the same answers and
+//!        the same final cache contents.
+//! After every run the real caches (`verif_cache_snapshot`) are checked against the invariant of the model
+//! (`Inv`: every cached value is the value of the cache-free function), here with the DFS oracle of C13 and by
+//! the Lean model (`C14 inv`); `C14 run` lets the model execute the same queries under a schedule chosen here
+//! and compares answers and final cache contents.
+
+use crate::c13::{self, Oracle, RecSpec, RowSpec};
 use crate::ctx::{CaseOut, Ctx};
+use crate::rng::Rng;
+use crate::vx;
+use libhaystack::defs::namespace::{verif_set_step_hook, DefDict, Namespace};
+use libhaystack::val::*;
+use std::cell::RefCell;
+use std::collections::{BTreeMap, BTreeSet};
+use std::panic::{catch_unwind, AssertUnwindSafe};
+use std::sync::{Arc, Barrier, Condvar, Mutex, Once};
+use std::time::Duration;
 
-pub fn exec(_label: &str, _input: &str, _out: &mut CaseOut) {}
+type Ns = &'static Namespace<'static>;
 
-pub fn generate(_ctx: &mut Ctx) {}
+// ------------------------------------------------------------------------------------------------
+// queries
+// ------------------------------------------------------------------------------------------------
+#[derive(Clone, Debug, PartialEq)]
+pub enum Q {
+    Sup(String),
+    ASup(String),
+    Inh(String),
+    Fits(String, String),
+    Refl(RecSpec),
+    RFits(RecSpec, String),
+    Rel(RecSpec, String, Option<String>),
+    Tags(String),
+}
+
+impl Q {
+    /// known to the Lean model
+    fn modelled(&self) -> bool {
+        !matches!(self, Q::Rel(..) | Q::Tags(..))
+    }
+    /// the set of cached keys after the query does not depend on hash-set iteration order
+    fn deterministic_footprint(&self) -> bool {
+        matches!(self, Q::Sup(_) | Q::ASup(_) | Q::Inh(_) | Q::Fits(..) | Q::Refl(_))
+    }
+    /// the ORDER of cache operations does not depend on hash-set iteration order
+    fn deterministic_order(&self) -> bool {
+        matches!(self, Q::Sup(_) | Q::ASup(_) | Q::Inh(_) | Q::Fits(..))
+    }
+    fn write(&self, out: &mut Vec<String>) {
+        let rec = |r: &RecSpec, out: &mut Vec<String>| {
+            out.push(r.len().to_string());
+            for (k, m) in r {
+                out.push(vx::h(k));
+                out.push((*m as u8).to_string());
+            }
+        };
+        match self {
+            Q::Sup(k) => out.extend(["sup".into(), vx::h(k)]),
+            Q::ASup(k) => out.extend(["asup".into(), vx::h(k)]),
+            Q::Inh(k) => out.extend(["inh".into(), vx::h(k)]),
+            Q::Fits(a, b) => out.extend(["fits".into(), vx::h(a), vx::h(b)]),
+            Q::Refl(r) => {
+                out.push("refl".into());
+                rec(r, out);
+            }
+            Q::RFits(r, b) => {
+                out.push("rfits".into());
+                rec(r, out);
+                out.push(vx::h(b));
+            }
+            Q::Rel(r, n, t) => {
+                out.push("rel".into());
+                rec(r, out);
+                out.push(vx::h(n));
+                out.push(vx::ho(t));
+            }
+            Q::Tags(p) => out.extend(["tags".into(), vx::h(p)]),
+        }
+    }
+    fn read(rd: &mut vx::Rd) -> Option<Q> {
+        let rec = |rd: &mut vx::Rd| -> Option<RecSpec> {
+            let k: usize = rd.num()?;
+            let mut r = Vec::new();
+            for _ in 0..k {
+                let n = rd.hs()?;
+                let m: u8 = rd.num()?;
+                r.push((n, m != 0));
+            }
+            Some(r)
+        };
+        Some(match rd.tok()? {
+            "sup" => Q::Sup(rd.hs()?),
+            "asup" => Q::ASup(rd.hs()?),
+            "inh" => Q::Inh(rd.hs()?),
+            "fits" => Q::Fits(rd.hs()?, rd.hs()?),
+            "refl" => Q::Refl(rec(rd)?),
+            "rfits" => {
+                let r = rec(rd)?;
+                Q::RFits(r, rd.hs()?)
+            }
+            "rel" => {
+                let r = rec(rd)?;
+                let n = rd.hs()?;
+                Q::Rel(r, n, rd.hos()?)
+            }
+            "tags" => Q::Tags(rd.hs()?),
+            _ => return None,
+        })
+    }
+}
+
+fn write_threads(qss: &[Vec<Q>], out: &mut Vec<String>) {
+    out.push(qss.len().to_string());
+    for qs in qss {
+        out.push(qs.len().to_string());
+        for q in qs {
+            q.write(out);
+        }
+    }
+}
+fn read_queries(rd: &mut vx::Rd) -> Option<Vec<Q>> {
+    let n: usize = rd.num()?;
+    (0..n).map(|_| Q::read(rd)).collect()
+}
+fn read_threads(rd: &mut vx::Rd) -> Option<Vec<Vec<Q>>> {
+    let n: usize = rd.num()?;
+    (0..n).map(|_| read_queries(rd)).collect()
+}
+
+/// a record as a dict: Marker tags, `...Ref` tags are Refs, the rest numbers / strings
+fn subject(r: &RecSpec) -> Dict {
+    let mut d = Dict::new();
+    for (i, (k, m)) in r.iter().enumerate() {
+        let v = if k.ends_with("Ref") {
+            Value::make_ref("r1")
+        } else if *m {
+            Value::make_marker()
+        } else if i % 2 == 0 {
+            Value::make_int(7)
+        } else {
+            Value::make_str("v")
+        };
+        d.insert(k.clone(), v);
+    }
+    d
+}
+
+/// the answer of the real namespace: (canonical text as the model prints it, extra detail compared only here)
+fn ask(ns: Ns, q: &Q) -> (String, String) {
+    let n = |v: Vec<String>| format!("n:{}", c13::show(&v));
+    let b = |x: bool| format!("b:{}", x as u8);
+    match q {
+        Q::Sup(k) => (n(c13::names(ns.supertypes_of(&Symbol::from(k.as_str())).iter().copied())), String::new()),
+        Q::ASup(k) => (n(c13::names(ns.all_supertypes_of(&Symbol::from(k.as_str())))), String::new()),
+        Q::Inh(k) => (n(c13::names(ns.inheritance(&Symbol::from(k.as_str())).iter().copied())), String::new()),
+        Q::Fits(a, bb) => (b(ns.fits(&Symbol::from(a.as_str()), &Symbol::from(bb.as_str()))), String::new()),
+        Q::Refl(r) => {
+            let d = subject(r);
+            let refl = ns.reflect(&d);
+            (n(c13::names(refl.defs.iter().copied())), format!("entity={}", refl.entity_type.def_name()))
+        }
+        Q::RFits(r, base) => {
+            let d = subject(r);
+            (b(ns.reflect(&d).fits(&Symbol::from(base.as_str()))), String::new())
+        }
+        Q::Rel(r, name, term) => {
+            let d = subject(r);
+            let resolve = |_: &Ref| -> Option<Dict> { None };
+            let t = term.as_ref().map(|t| Symbol::from(t.as_str()));
+            (b(ns.has_relationship(&d, &Symbol::from(name.as_str()), &t, &None, &resolve)), String::new())
+        }
+        Q::Tags(p) => (n(c13::names(ns.tags(&Symbol::from(p.as_str())))), String::new()),
+    }
+}
+
+// ------------------------------------------------------------------------------------------------
+// graphs
+// ------------------------------------------------------------------------------------------------
+enum GraphSrc {
+    Rows(Vec<RowSpec>),
+    Zinc,
+}
+impl GraphSrc {
+    fn rows(&self) -> &[RowSpec] {
+        match self {
+            GraphSrc::Rows(r) => r,
+            GraphSrc::Zinc => &c13::zinc_db().rows,
+        }
+    }
+    /// a fresh (cold-cache) namespace
+    fn fresh(&self) -> Ns {
+        match self {
+            GraphSrc::Rows(r) => c13::build_ns(r),
+            GraphSrc::Zinc => Box::leak(Box::new(Namespace::make(c13::zinc_db().grid.clone()))),
+        }
+    }
+    fn write(&self, out: &mut Vec<String>) {
+        match self {
+            GraphSrc::Rows(r) => {
+                out.push("g".into());
+                c13::write_rows(r, out);
+            }
+            GraphSrc::Zinc => out.push("z".into()),
+        }
+    }
+    fn read(rd: &mut vx::Rd) -> Option<GraphSrc> {
+        match rd.tok()? {
+            "g" => Some(GraphSrc::Rows(c13::read_rows(rd)?)),
+            "z" => Some(GraphSrc::Zinc),
+            _ => None,
+        }
+    }
+}
+
+// ------------------------------------------------------------------------------------------------
+// the step hook: forced interleavings (controller) or random perturbation
+// ------------------------------------------------------------------------------------------------
+struct CtlSt {
+    grant: Vec<bool>,
+    /// 0 running, 1 paused at a hook point, 2 done
+    status: Vec<u8>,
+    event: Vec<Option<String>>,
+}
+struct Ctl {
+    m: Mutex<CtlSt>,
+    cv: Condvar,
+}
+const CTL_TIMEOUT: Duration = Duration::from_secs(20);
+
+impl Ctl {
+    fn new(n: usize) -> Ctl {
+        Ctl { m: Mutex::new(CtlSt { grant: vec![false; n], status: vec![0; n], event: vec![None; n] }), cv: Condvar::new() }
+    }
+    /// worker side: report the event and wait for the next grant
+    fn pause(&self, tid: usize, ev: Option<String>) {
+        let mut st = self.m.lock().unwrap();
+        st.event[tid] = ev;
+        st.status[tid] = 1;
+        self.cv.notify_all();
+        while !st.grant[tid] {
+            let (g, to) = self.cv.wait_timeout(st, CTL_TIMEOUT).unwrap();
+            st = g;
+            if to.timed_out() && !st.grant[tid] {
+                panic!("controller: no grant");
+            }
+        }
+        st.grant[tid] = false;
+        st.status[tid] = 0;
+        self.cv.notify_all();
+    }
+    fn done(&self, tid: usize) {
+        let mut st = self.m.lock().unwrap();
+        st.status[tid] = 2;
+        self.cv.notify_all();
+    }
+    fn wait_all_paused(&self) -> bool {
+        let mut st = self.m.lock().unwrap();
+        while st.status.iter().any(|s| *s == 0) {
+            let (g, to) = self.cv.wait_timeout(st, CTL_TIMEOUT).unwrap();
+            st = g;
+            if to.timed_out() {
+                return false;
+            }
+        }
+        true
+    }
+    /// controller side: let `tid` run to its next hook point; returns the event or `done`; None = stuck
+    fn grant(&self, tid: usize) -> Option<String> {
+        let mut st = self.m.lock().unwrap();
+        st.grant[tid] = true;
+        self.cv.notify_all();
+        while st.grant[tid] || st.status[tid] == 0 {
+            let (g, to) = self.cv.wait_timeout(st, CTL_TIMEOUT).unwrap();
+            st = g;
+            if to.timed_out() {
+                return None;
+            }
+        }
+        if st.status[tid] == 2 {
+            Some("done".into())
+        } else {
+            st.event[tid].take()
+        }
+    }
+}
+
+enum Role {
+    Free,
+    Controlled(Arc<Ctl>, usize),
+    Perturb(Rng),
+}
+thread_local! {
+    static ROLE: RefCell<Role> = const { RefCell::new(Role::Free) };
+}
+
+fn install_hook() {
+    static ONCE: Once = Once::new();
+    ONCE.call_once(|| {
+        verif_set_step_hook(Some(Box::new(|point: &'static str, key: &str| {
+            ROLE.with(|r| {
+                let mut r = r.borrow_mut();
+                match &mut *r {
+                    Role::Free => {}
+                    Role::Controlled(ctl, tid) => {
+                        let (ctl, tid) = (ctl.clone(), *tid);
+                        drop(r);
+                        ctl.pause(tid, Some(format!("{point}:{}", vx::h(key))));
+                    }
+                    Role::Perturb(rng) => match rng.below(6) {
+                        0 | 1 => std::thread::yield_now(),
+                        2 => std::thread::sleep(Duration::from_micros(rng.below(40))),
+                        _ => {}
+                    },
+                }
+            })
+        })));
+    });
+}
+
+// ------------------------------------------------------------------------------------------------
+// shared checks
+// ------------------------------------------------------------------------------------------------
+fn sorted(mut v: Vec<String>) -> Vec<String> {
+    v.sort();
+    v
+}
+
+/// the real caches must satisfy the model's invariant: checked here (DFS oracle) and by the Lean model
+fn check_caches(src: &GraphSrc, ns: Ns, o: &Oracle, out: &mut CaseOut) -> (String, String) {
+    let (sup, inh) = ns.verif_cache_snapshot();
+    let mut t = vec![sup.len().to_string()];
+    let mut sup_s = Vec::new();
+    let mut inh_s = Vec::new();
+    let sup: BTreeMap<String, Vec<String>> = sup.into_iter().map(|(k, v)| (k, sorted(v))).collect();
+    let inh: BTreeMap<String, Vec<String>> = inh.into_iter().map(|(k, v)| (k, sorted(v))).collect();
+    for (k, v) in &sup {
+        if *v != o.sup(k) {
+            out.fail("cache_inv", format!("supertypes_of_cache[{k:?}] = {v:?}, cache-free value {:?}", o.sup(k)));
+        }
+        t.push(vx::h(k));
+        c13::write_names(v, &mut t);
+        sup_s.push(format!("{}={}", vx::h(k), c13::show(v)));
+    }
+    t.push(inh.len().to_string());
+    for (k, v) in &inh {
+        let want: Vec<String> = o.inheritance(k).into_iter().collect();
+        if *v != want {
+            out.fail("cache_inv", format!("inheritance_of_cache[{k:?}] = {v:?}, cache-free value {want:?}"));
+        }
+        t.push(vx::h(k));
+        c13::write_names(v, &mut t);
+        inh_s.push(format!("{}={}", vx::h(k), c13::show(v)));
+    }
+    out.req(
+        format!("C14 inv {} {}", c13::model_graph_tokens(src.rows()), t.join(" ")),
+        format!("ok {} {}", sup.len(), inh.len()),
+    );
+    out.stat(&format!("cached_keys_{}", match sup.len() + inh.len() { 0 => "0", 1..=9 => "1-9", 10..=99 => "10-99", _ => "100+" }));
+    (sup_s.join("+"), inh_s.join("+"))
+}
+
+/// answers of a single-threaded cold namespace, one per distinct query
+struct Reference {
+    ns: Ns,
+    memo: Vec<(Q, (String, String))>,
+}
+impl Reference {
+    fn get(&mut self, q: &Q) -> (String, String) {
+        if let Some((_, a)) = self.memo.iter().find(|(k, _)| k == q) {
+            return a.clone();
+        }
+        let a = ask(self.ns, q);
+        self.memo.push((q.clone(), a.clone()));
+        a
+    }
+}
+
+fn model_threads_tokens(qss: &[Vec<Q>]) -> String {
+    let only: Vec<Vec<Q>> = qss.iter().map(|qs| qs.iter().filter(|q| q.modelled()).cloned().collect()).collect();
+    let mut t = vec![];
+    write_threads(&only, &mut t);
+    t.join(" ")
+}
+
+// ------------------------------------------------------------------------------------------------
+// exec
+// ------------------------------------------------------------------------------------------------
+pub fn exec(_label: &str, input: &str, out: &mut CaseOut) {
+    install_hook();
+    let mut rd = vx::Rd::new(input);
+    let mode = rd.tok().unwrap_or("");
+    let Some(src) = GraphSrc::read(&mut rd) else {
+        out.fail("harness", "unparsable C14 input".into());
+        return;
+    };
+    let o = Oracle::new(src.rows());
+    match mode {
+        "seq" => {
+            let Some(qs) = read_queries(&mut rd) else {
+                out.fail("harness", "unparsable C14 input".into());
+                return;
+            };
+            exec_seq(&src, &o, &qs, out)
+        }
+        "conc" => {
+            let parsed = (|| {
+                let seed: u64 = rd.num()?;
+                let qss = read_threads(&mut rd)?;
+                let n: usize = rd.num()?;
+                let sched: Option<Vec<usize>> = (0..n).map(|_| rd.num()).collect();
+                Some((seed, qss, sched?))
+            })();
+            let Some((seed, qss, sched)) = parsed else {
+                out.fail("harness", "unparsable C14 input".into());
+                return;
+            };
+            exec_conc(&src, &o, seed, &qss, &sched, out)
+        }
+        "trace" => {
+            let parsed = (|| {
+                let budget: usize = rd.num()?;
+                let qss = read_threads(&mut rd)?;
+                Some((budget, qss))
+            })();
+            let Some((budget, qss)) = parsed else {
+                out.fail("harness", "unparsable C14 input".into());
+                return;
+            };
+            exec_trace(&src, &o, budget, &qss, out)
+        }
+        _ => out.fail("harness", "unparsable C14 input".into()),
+    }
+}
+
+fn exec_seq(src: &GraphSrc, o: &Oracle, qs: &[Q], out: &mut CaseOut) {
+    out.nontrivial = qs.len() >= 2;
+    let hist = src.fresh();
+    let mut answers = Vec::new();
+    for (i, q) in qs.iter().enumerate() {
+        let a = ask(hist, q);
+        // the same query as the FIRST query of a cold namespace
+        let alone_ns = src.fresh();
+        let alone = ask(alone_ns, q);
+        unsafe { c13::free_ns(alone_ns) };
+        if a != alone {
+            out.fail("history_dependent", format!("query #{i} {q:?}: after the history {a:?}, alone {alone:?}"));
+        }
+        // and asked a second time right away (warm)
+        let again = ask(hist, q);
+        if again != a {
+            out.fail("history_dependent", format!("query #{i} {q:?}: first {a:?}, repeated {again:?}"));
+        }
+        answers.push(a.0);
+    }
+    let (sup_s, inh_s) = check_caches(src, hist, o, out);
+    if qs.iter().all(|q| q.modelled()) {
+        let det = qs.iter().all(|q| q.deterministic_footprint());
+        let model_ans = answers.join("/");
+        out.req(
+            format!("C14 run {} {} 3 {} 0", det as u8, c13::model_graph_tokens(src.rows()), model_threads_tokens(&[qs.to_vec()])),
+            if det { format!("ok {model_ans} # {sup_s} # {inh_s}") } else { format!("ok {model_ans}") },
+        );
+    }
+    unsafe { c13::free_ns(hist) };
+}
+
+fn exec_conc(src: &GraphSrc, o: &Oracle, seed: u64, qss: &[Vec<Q>], sched: &[usize], out: &mut CaseOut) {
+    out.nontrivial = qss.len() >= 2;
+    out.stat(&format!("threads_{}", qss.len()));
+    let ns = src.fresh();
+    let barrier = Arc::new(Barrier::new(qss.len()));
+    let mut handles = Vec::new();
+    for (tid, qs) in qss.iter().enumerate() {
+        let qs = qs.clone();
+        let barrier = barrier.clone();
+        let tseed = seed.wrapping_mul(0x9E3779B97F4A7C15).wrapping_add(tid as u64);
+        handles.push(std::thread::spawn(move || {
+            ROLE.with(|r| *r.borrow_mut() = if seed == 0 { Role::Free } else { Role::Perturb(Rng::new(tseed)) });
+            barrier.wait();
+            let mut res: Vec<Result<(String, String), ()>> = Vec::new();
+            for q in &qs {
+                res.push(catch_unwind(AssertUnwindSafe(|| ask(ns, q))).map_err(|_| ()));
+            }
+            res
+        }));
+    }
+    let results: Vec<Vec<Result<(String, String), ()>>> =
+        handles.into_iter().map(|h| h.join().unwrap_or_else(|_| vec![Err(())])).collect();
+    // reference: one cold namespace, one thread
+    let mut reference = Reference { ns: src.fresh(), memo: Vec::new() };
+    let mut thread_ans = Vec::new();
+    for (tid, (qs, rs)) in qss.iter().zip(results.iter()).enumerate() {
+        let mut mine = Vec::new();
+        if rs.len() != qs.len() {
+            out.fail("thread_panic", format!("thread {tid} died"));
+        }
+        for (q, r) in qs.iter().zip(rs.iter()) {
+            match r {
+                Err(()) => out.fail("thread_panic", format!("thread {tid} panicked in {q:?}")),
+                Ok(a) => {
+                    let want = reference.get(q);
+                    if *a != want {
+                        out.fail("schedule_dependent", format!("thread {tid} {q:?}: concurrent {a:?}, single-threaded {want:?}"));
+                    }
+                    if q.modelled() {
+                        mine.push(a.0.clone());
+                    }
+                }
+            }
+        }
+        thread_ans.push(mine.join("/"));
+    }
+    let (sup_s, inh_s) = check_caches(src, ns, o, out);
+    let all_modelled = qss.iter().flatten().all(|q| q.modelled());
+    let det = all_modelled && qss.iter().flatten().all(|q| q.deterministic_footprint());
+    let mut st = vec![sched.len().to_string()];
+    st.extend(sched.iter().map(|t| t.to_string()));
+    out.req(
+        format!("C14 run {} {} 3 {} {}", det as u8, c13::model_graph_tokens(src.rows()), model_threads_tokens(qss), st.join(" ")),
+        if det { format!("ok {} # {sup_s} # {inh_s}", thread_ans.join(";")) } else { format!("ok {}", thread_ans.join(";")) },
+    );
+    unsafe {
+        c13::free_ns(ns);
+        c13::free_ns(reference.ns);
+    }
+}
+
+/// one controlled run: `prefix` fixes the first choices, afterwards the lowest unfinished thread runs.
+/// Returns (schedule, alternatives per step, events, answers per thread, caches) or None when stuck.
+#[allow(clippy::type_complexity)]
+fn controlled_run(
+    src: &GraphSrc,
+    o: &Oracle,
+    qss: &[Vec<Q>],
+    choose: &mut dyn FnMut(usize, &[usize]) -> usize,
+    out: &mut CaseOut,
+) -> Option<(Vec<usize>, Vec<Vec<usize>>, Vec<String>, Vec<Vec<(String, String)>>, (String, String))> {
+    let n = qss.len();
+    let ns = src.fresh();
+    let ctl = Arc::new(Ctl::new(n));
+    let mut handles = Vec::new();
+    for (tid, qs) in qss.iter().enumerate() {
+        let qs = qs.clone();
+        let ctl = ctl.clone();
+        handles.push(std::thread::spawn(move || {
+            ROLE.with(|r| *r.borrow_mut() = Role::Controlled(ctl.clone(), tid));
+            ctl.pause(tid, None);
+            let res = catch_unwind(AssertUnwindSafe(|| qs.iter().map(|q| ask(ns, q)).collect::<Vec<_>>()));
+            ROLE.with(|r| *r.borrow_mut() = Role::Free);
+            ctl.done(tid);
+            res.ok()
+        }));
+    }
+    if !ctl.wait_all_paused() {
+        out.fail("hang", "threads did not reach their start point".into());
+        return None;
+    }
+    let mut finished = vec![false; n];
+    let mut sched = Vec::new();
+    let mut alts = Vec::new();
+    let mut events = Vec::new();
+    while finished.iter().any(|f| !f) {
+        let open: Vec<usize> = (0..n).filter(|t| !finished[*t]).collect();
+        let choice = choose(sched.len(), &open);
+        alts.push(open);
+        sched.push(choice);
+        match ctl.grant(choice) {
+            None => {
+                out.fail("hang", format!("thread {choice} neither reached a hook point nor finished (schedule {sched:?})"));
+                // let the rest go so that the process is not left with blocked threads
+                return None;
+            }
+            Some(ev) => {
+                if ev == "done" {
+                    finished[choice] = true;
+                }
+                events.push(format!("{choice}:{ev}"));
+            }
+        }
+    }
+    let mut answers = Vec::new();
+    for (tid, h) in handles.into_iter().enumerate() {
+        match h.join().ok().flatten() {
+            Some(a) => answers.push(a),
+            None => {
+                out.fail("thread_panic", format!("thread {tid} panicked (schedule {sched:?})"));
+                answers.push(vec![]);
+            }
+        }
+    }
+    let caches = check_caches_quiet(ns, o, out);
+    unsafe { c13::free_ns(ns) };
+    Some((sched, alts, events, answers, caches))
+}
+
+/// like `check_caches` without the Lean request (the `trace` reply carries the cache contents)
+fn check_caches_quiet(ns: Ns, o: &Oracle, out: &mut CaseOut) -> (String, String) {
+    let (sup, inh) = ns.verif_cache_snapshot();
+    let sup: BTreeMap<String, Vec<String>> = sup.into_iter().map(|(k, v)| (k, sorted(v))).collect();
+    let inh: BTreeMap<String, Vec<String>> = inh.into_iter().map(|(k, v)| (k, sorted(v))).collect();
+    for (k, v) in &sup {
+        if *v != o.sup(k) {
+            out.fail("cache_inv", format!("supertypes_of_cache[{k:?}] = {v:?}, cache-free value {:?}", o.sup(k)));
+        }
+    }
+    for (k, v) in &inh {
+        let want: Vec<String> = o.inheritance(k).into_iter().collect();
+        if *v != want {
+            out.fail("cache_inv", format!("inheritance_of_cache[{k:?}] = {v:?}, cache-free value {want:?}"));
+        }
+    }
+    let f = |m: &BTreeMap<String, Vec<String>>| m.iter().map(|(k, v)| format!("{}={}", vx::h(k), c13::show(v))).collect::<Vec<_>>().join("+");
+    (f(&sup), f(&inh))
+}
+
+fn exec_trace(src: &GraphSrc, o: &Oracle, budget: usize, qss: &[Vec<Q>], out: &mut CaseOut) {
+    out.nontrivial = true;
+    if !qss.iter().flatten().all(|q| q.deterministic_order()) {
+        out.fail("harness", "trace cases take sup/asup/inh/fits queries only".into());
+        return;
+    }
+    let mut reference = Reference { ns: src.fresh(), memo: Vec::new() };
+    let graph = c13::model_graph_tokens(src.rows());
+    let threads = model_threads_tokens(qss);
+    let mut stack: Vec<Vec<usize>> = vec![vec![]];
+    let mut runs = 0usize;
+    let mut exhausted = true;
+    let mut distinct_event_seqs = BTreeSet::new();
+    let mut report = |sched: &[usize], events: &[String], answers: &[Vec<(String, String)>], caches: &(String, String),
+                      reference: &mut Reference, out: &mut CaseOut| {
+        let mut thread_ans = Vec::new();
+        for (tid, (qs, ans)) in qss.iter().zip(answers.iter()).enumerate() {
+            for (q, a) in qs.iter().zip(ans.iter()) {
+                let want = reference.get(q);
+                if *a != want {
+                    out.fail("schedule_dependent", format!("schedule {sched:?}: thread {tid} {q:?}: {a:?}, single-threaded {want:?}"));
+                }
+            }
+            thread_ans.push(ans.iter().map(|a| a.0.clone()).collect::<Vec<_>>().join("/"));
+        }
+        distinct_event_seqs.insert(events.join(","));
+        let mut st = vec![sched.len().to_string()];
+        st.extend(sched.iter().map(|t| t.to_string()));
+        out.req(
+            format!("C14 trace {graph} 1 {threads} {}", st.join(" ")),
+            format!("ok {} | {} # {} # {}", events.join(","), thread_ans.join(";"), caches.0, caches.1),
+        );
+    };
+    // phase 1: depth-first enumeration of ALL interleavings of the hook points (half the budget)
+    while let Some(prefix) = stack.pop() {
+        if runs >= budget / 2 {
+            exhausted = false;
+            break;
+        }
+        runs += 1;
+        let mut choose = |i: usize, open: &[usize]| if i < prefix.len() { prefix[i] } else { open[0] };
+        let Some((sched, alts, events, answers, caches)) = controlled_run(src, o, qss, &mut choose, out) else {
+            break;
+        };
+        for i in (prefix.len()..sched.len()).rev() {
+            for alt in alts[i].iter().rev() {
+                if *alt > sched[i] {
+                    let mut p = sched[..i].to_vec();
+                    p.push(*alt);
+                    stack.push(p);
+                }
+            }
+        }
+        report(&sched, &events, &answers, &caches, &mut reference, out);
+    }
+    // phase 2 (only when the space is larger than that): uniformly random interleavings
+    if !exhausted {
+        let mut rng = Rng::new(0xC14 ^ (budget as u64) ^ ((qss.len() as u64) << 32) ^ (threads.len() as u64) << 8);
+        while runs < budget {
+            runs += 1;
+            let mut choose = |_i: usize, open: &[usize]| *rng.pick(open);
+            let Some((sched, _alts, events, answers, caches)) = controlled_run(src, o, qss, &mut choose, out) else {
+                break;
+            };
+            report(&sched, &events, &answers, &caches, &mut reference, out);
+        }
+    }
+    drop(report);
+    out.stat(if exhausted { "trace_all_interleavings" } else { "trace_budget_reached" });
+    for _ in 0..runs {
+        out.stat("trace_schedules");
+    }
+    for _ in 0..distinct_event_seqs.len() {
+        out.stat("trace_distinct_event_sequences");
+    }
+    unsafe { c13::free_ns(reference.ns) };
+}
+
+// ------------------------------------------------------------------------------------------------
+// generators
+// ------------------------------------------------------------------------------------------------
+/// relationship / association structure for `has_relationship` and `tags`, respecting the rank order
+fn add_rel_rows(rng: &mut Rng, g: &mut c13::GenGraph) {
+    let has = |g: &c13::GenGraph, n: &str| g.defined.iter().any(|d| d == n);
+    if ["tags", "tagOn", "inputs", "hotRef", "coldRef"].iter().any(|n| has(g, n)) {
+        return;
+    }
+    let some = |s: &str| Some(s.to_string());
+    let pick = |rng: &mut Rng, g: &c13::GenGraph| -> String {
+        if g.defined.is_empty() {
+            "marker".into()
+        } else {
+            rng.pick(&g.defined).clone()
+        }
+    };
+    let mut rows = Vec::new();
+    if !has(g, "association") {
+        rows.push(RowSpec::plain("association", vec![]));
+    }
+    if !has(g, "relationship") {
+        rows.push(RowSpec::plain("relationship", vec![]));
+    }
+    rows.push(RowSpec::plain("tagOn", vec![some("association")]));
+    let mut tags = RowSpec::plain("tags", vec![some("association")]);
+    tags.extra = vec![("computedFromReciprocal".into(), None), ("reciprocalOf".into(), some("tagOn"))];
+    rows.push(tags);
+    rows.push(RowSpec::plain("inputs", vec![some("relationship")]));
+    let mut hot = RowSpec::plain("hotRef", vec![]);
+    hot.extra = vec![("inputs".into(), Some(pick(rng, g)))];
+    rows.push(hot);
+    let mut cold = RowSpec::plain("coldRef", vec![]);
+    cold.extra = vec![("inputs".into(), Some(pick(rng, g)))];
+    rows.push(cold);
+    // some defs are tagOn other defs
+    for _ in 0..3 {
+        let mut r = RowSpec::plain(&format!("prop{}", rng.below(1000)), vec![]);
+        r.extra = vec![("tagOn".into(), Some(pick(rng, g)))];
+        rows.push(r);
+    }
+    for r in rows {
+        if let c13::DefTag::Sym(n) = &r.def {
+            if has(g, n) {
+                continue;
+            }
+            g.defined.push(n.clone());
+        }
+        g.rows.push(r);
+    }
+}
+
+fn gen_queries(rng: &mut Rng, o: &Oracle, universe: &[String], n: u64, kinds: &[u64]) -> Vec<Q> {
+    let recs = c13::gen_records(rng, o, 4);
+    let name = |rng: &mut Rng| -> String {
+        if universe.is_empty() || rng.chance(1, 12) {
+            "neverMentioned".into()
+        } else {
+            rng.pick(universe).clone()
+        }
+    };
+    let mut qs = Vec::new();
+    for _ in 0..n {
+        let q = match *rng.pick(kinds) {
+            0 => Q::Sup(name(rng)),
+            1 => Q::ASup(name(rng)),
+            2 => Q::Inh(name(rng)),
+            3 => Q::Fits(name(rng), name(rng)),
+            4 => Q::Refl(rng.pick(&recs).clone()),
+            5 => Q::RFits(rng.pick(&recs).clone(), name(rng)),
+            6 => {
+                let mut r = rng.pick(&recs).clone();
+                for t in ["hotRef", "coldRef", "hotWaterRef", "chilledWaterRef", "equipRef"] {
+                    if rng.chance(1, 3) && !r.iter().any(|(k, _)| k == t) {
+                        r.push((t.to_string(), false));
+                    }
+                }
+                r.sort();
+                let rel = rng.pick(&["inputs", "outputs", "containedBy", "relationship"]).to_string();
+                Q::Rel(r, rel, if rng.chance(2, 3) { Some(name(rng)) } else { None })
+            }
+            _ => Q::Tags(name(rng)),
+        };
+        qs.push(q);
+    }
+    qs
+}
+
+const MODELLED_DET: &[u64] = &[0, 1, 1, 2, 2, 2, 3, 3, 4];
+const MODELLED: &[u64] = &[0, 1, 2, 2, 3, 3, 4, 5, 5];
+const ALL_KINDS: &[u64] = &[0, 1, 2, 2, 3, 3, 4, 5, 6, 6, 7];
+const ORDERED: &[u64] = &[0, 1, 2, 2, 3];
+
+fn universe_of(o: &Oracle) -> Vec<String> {
+    let mut s: BTreeSet<String> = o.is.keys().cloned().collect();
+    s.extend(o.subs.keys().cloned());
+    s.into_iter().collect()
+}
+
+fn emit(ctx: &mut Ctx, label: &str, mode: &str, src: &GraphSrc, tail: Vec<String>) {
+    let mut t = vec![mode.to_string()];
+    src.write(&mut t);
+    t.extend(tail);
+    ctx.case(label, &t.join(" "));
+}
+
+pub fn generate(ctx: &mut Ctx) {
+    let mut rng = ctx.rng.fork();
+    let some = |s: &str| Some(s.to_string());
+    // ---- forced interleavings ---------------------------------------------------------------
+    let diamond = vec![
+        RowSpec::plain("m", vec![]),
+        RowSpec::plain("a", vec![some("m")]),
+        RowSpec::plain("b", vec![some("m"), some("zz")]),
+        RowSpec::plain("d", vec![some("a"), some("b")]),
+        RowSpec::plain("e", vec![some("a")]),
+    ];
+    let s = |x: &str| x.to_string();
+    let budget = ctx.n(1000, 10000) as usize;
+    let fixed: Vec<(&str, Vec<Vec<Q>>)> = vec![
+        ("one_key_sup_2", vec![vec![Q::Sup(s("d"))], vec![Q::Sup(s("d"))]]),
+        ("one_key_inh_2", vec![vec![Q::Inh(s("a"))], vec![Q::Inh(s("a"))]]),
+        ("one_key_sup_3", vec![vec![Q::Sup(s("d"))], vec![Q::Sup(s("d"))], vec![Q::Sup(s("d"))]]),
+        ("shared_supertype_inh", vec![vec![Q::Inh(s("b"))], vec![Q::Inh(s("e"))]]),
+        ("shared_supertype_asup", vec![vec![Q::ASup(s("d"))], vec![Q::ASup(s("e"))]]),
+        ("fits_vs_inh", vec![vec![Q::Fits(s("e"), s("m"))], vec![Q::Inh(s("e")), Q::Sup(s("a"))]]),
+        ("undefined_key", vec![vec![Q::Inh(s("zz")), Q::Sup(s("zz"))], vec![Q::Sup(s("zz")), Q::Inh(s("zz"))]]),
+        ("three_mixed", vec![vec![Q::Inh(s("a"))], vec![Q::Sup(s("a"))], vec![Q::Fits(s("a"), s("m"))]]),
+    ];
+    for (name, qss) in &fixed {
+        let mut t = vec![budget.to_string()];
+        write_threads(qss, &mut t);
+        emit(ctx, &format!("trace:{name}"), "trace", &GraphSrc::Rows(diamond.clone()), t);
+    }
+    for i in 0..ctx.n(6, 60) {
+        let g = c13::gen_graph(&mut rng, 7);
+        let o = Oracle::new(&g.rows);
+        let uni = universe_of(&o);
+        let nthreads = 2 + rng.below(2) as usize;
+        let qss: Vec<Vec<Q>> = (0..nthreads).map(|_| { let n = 1 + rng.below(2); gen_queries(&mut rng, &o, &uni, n, ORDERED) }).collect();
+        let mut t = vec![(budget / 6).to_string()];
+        write_threads(&qss, &mut t);
+        emit(ctx, &format!("trace:rand{i}"), "trace", &GraphSrc::Rows(g.rows), t);
+    }
+    // ---- sequential histories ---------------------------------------------------------------
+    for i in 0..ctx.n(60, 1200) {
+        let mut g = c13::gen_graph(&mut rng, 22);
+        let kinds = match i % 3 {
+            0 => MODELLED_DET,
+            1 => MODELLED,
+            _ => {
+                add_rel_rows(&mut rng, &mut g);
+                ALL_KINDS
+            }
+        };
+        let o = Oracle::new(&g.rows);
+        let uni = universe_of(&o);
+        let n = 2 + rng.below(14);
+        let qs = gen_queries(&mut rng, &o, &uni, n, kinds);
+        let mut t = vec![qs.len().to_string()];
+        for q in &qs {
+            q.write(&mut t);
+        }
+        emit(ctx, &format!("seq:{i}"), "seq", &GraphSrc::Rows(g.rows), t);
+    }
+    // ---- concurrency ------------------------------------------------------------------------
+    for i in 0..ctx.n(120, 3000) {
+        let mut g = c13::gen_graph(&mut rng, 22);
+        let kinds = match i % 3 {
+            0 => MODELLED_DET,
+            1 => MODELLED,
+            _ => {
+                add_rel_rows(&mut rng, &mut g);
+                ALL_KINDS
+            }
+        };
+        let o = Oracle::new(&g.rows);
+        let uni = universe_of(&o);
+        let nthreads = if ctx.quick() { 2 + rng.below(15) as usize } else if i % 4 == 0 { 16 } else { 2 + rng.below(15) as usize };
+        // overlapping keys: every thread draws from the same small pool of queries
+        let npool = 6 + rng.below(10);
+        let pool = gen_queries(&mut rng, &o, &uni, npool, kinds);
+        let qss: Vec<Vec<Q>> = (0..nthreads).map(|_| (0..(1 + rng.below(8))).map(|_| rng.pick(&pool).clone()).collect()).collect();
+        emit_conc(ctx, &mut rng, &format!("conc:{i}"), &GraphSrc::Rows(g.rows), &qss);
+    }
+    // ---- the real database ------------------------------------------------------------------
+    let db = c13::zinc_db();
+    let o = Oracle::new(&db.rows);
+    let uni = db.symbols.clone();
+    for i in 0..ctx.n(3, 40) {
+        let n = 6 + rng.below(10);
+        let qs = gen_queries(&mut rng, &o, &uni, n, if i % 2 == 0 { MODELLED } else { ALL_KINDS });
+        let mut t = vec![qs.len().to_string()];
+        for q in &qs {
+            q.write(&mut t);
+        }
+        emit(ctx, &format!("seq:zinc{i}"), "seq", &GraphSrc::Zinc, t);
+    }
+    for i in 0..ctx.n(8, 300) {
+        let nthreads = if i % 2 == 0 { 16 } else { 2 + rng.below(15) as usize };
+        let npool = 10 + rng.below(20);
+        let pool = gen_queries(&mut rng, &o, &uni, npool, if i % 3 == 0 { MODELLED_DET } else { ALL_KINDS });
+        let qss: Vec<Vec<Q>> = (0..nthreads).map(|_| (0..(2 + rng.below(10))).map(|_| rng.pick(&pool).clone()).collect()).collect();
+        emit_conc(ctx, &mut rng, &format!("conc:zinc{i}"), &GraphSrc::Zinc, &qss);
+    }
+}
+
+fn emit_conc(ctx: &mut Ctx, rng: &mut Rng, label: &str, src: &GraphSrc, qss: &[Vec<Q>]) {
+    let mut t = vec![(if rng.chance(1, 5) { 0 } else { 1 + rng.next() % 1_000_000 }).to_string()];
+    write_threads(qss, &mut t);
+    // the schedule the MODEL is run under (the real threads are scheduled by the OS)
+    let n = rng.below(400) as usize;
+    t.push(n.to_string());
+    for _ in 0..n {
+        t.push(rng.below(qss.len() as u64).to_string());
+    }
+    emit(ctx, label, "conc", src, t);
+}
